@@ -91,13 +91,44 @@ func VerifC13_BellmanFordAllFrom() {
 }
 
 // VerifC13_JohnsonAllPaths: weights of free sign; ok iff no negative cycle.
+// Johnson draws a fresh node ID with rand.Int64 (q = -r, then +r, ... until
+// q is not a node ID). The draw is stubbed by a harness-level case split over
+// candidate values: colliding with an existing ID on the first draw (3 -> -3),
+// on the second draw (5), or fresh (100, MaxInt64).
 func VerifC13_JohnsonAllPaths() {
 	g := c13Build(false, false)
+	calls := 0
+	first := []int64{3, 100, math.MaxInt64} // q = -3 collides with node -3
+	second := []int64{5, 100}               // q = +5 collides with node 5
+	verifStubFunc("math/rand/v2.Int64", func() int64 {
+		calls++
+		switch calls {
+		case 1:
+			return first[verifChoose("rand1", 0, len(first)-1)]
+		case 2:
+			return second[verifChoose("rand2", 0, len(second)-1)]
+		}
+		return 1000 + int64(calls)
+	})
 	ap, ok := path.JohnsonAllPaths(g)
 	verifAssert(verifIff(ok, !c13NegAny(g)), "JohnsonAllPaths: ok is false iff the graph has a negative cycle")
 	if ok {
 		c13CheckAllPairs(g, ap, "JohnsonAllPaths")
 		verifReach("no negative cycle")
+	}
+	verifReach("end")
+}
+
+// VerifC13_JohnsonBetween: Between (random choice among ties) when every
+// cycle is positive.
+func VerifC13_JohnsonBetween() {
+	g := c13Build(false, false)
+	c13AssumeNoZeroCycle(g)
+	verifStubFunc("math/rand/v2.Int64", func() int64 { return 100 })
+	ap, ok := path.JohnsonAllPaths(g)
+	verifAssert(ok, "JohnsonAllPaths: ok when every cycle is positive")
+	if ok {
+		c13CheckBetween(g, ap, "JohnsonAllPaths")
 	}
 	verifReach("end")
 }
